@@ -49,8 +49,8 @@
                                values"; exists iff no name receives two values)
     Ctf.fillEvent q            every valueless item `(W_s, None)` becomes `(W_s, -W)`
     ctfTRSoundClass g ds o c   decidable class of conditional queries (Y0/Model/CtfTr.lean): `ctfTRLinkClass` (one world
-                               across ALL ancestral components; outcomes found under their own name, over distinct
-                               vertices; no self-intervention, consistent subscripts; no literal
+                               across ALL ancestral components; outcomes found under their own name, two outcomes
+                               over one vertex identical; no self-intervention, consistent subscripts; no literal
                                subscript names a vertex of the components unless it names a condition) and the simplified
                                `D_*` in `ctfSoundClass`
     CondSem, cond_parts        the semantic core of Algorithm 3, free of syntax (Y0/Lemmas/CtfTrCondSem.lean,
@@ -326,7 +326,7 @@ theorem ctfTR_sound_of_parts (target : MG Name) (ds : List Domain) (o c : Event)
 /-- **C09, value clause, Algorithm 3 (ctfTR).**  Whenever `ctfTR` returns an expression `x` with an event, for a
 validated conditional query built by the public wrapper on a target graph built by `from_edges` with domains as declared,
 inside the decidable class `ctfTRSoundClass` (Y0/Model/CtfTr.lean: one world across the ancestral components, outcomes
-found under their own name and over distinct vertices, no self-intervened variable, no literal subscript naming a summed
+found under their own name, no self-intervened variable, no literal subscript naming a summed
 vertex, and `D_*` in Algorithm 2's class `ctfSoundClass`) — then in EVERY family `F`
 of functional SCMs compatible with the target graph and the declared domains, for every reading `ν` of the value symbols
 and every valuation `σ` that carries the values and literal subscripts of the query (`EventReading ν σ (o ++ c)`: the
